@@ -492,12 +492,41 @@ def merge (attrs : List Attr) : List Attr :=
   if attrs.isEmpty then attrs
   else coalesce none (dedupAdj (sortBy (leOf attrCmp) attrs))
 
-/-- `update_attributions` with phases 1 and 3 (diff, move detection) supplied. -/
+/-- the diff path of `update_attributions` (taken when the two contents differ) with phases 1 and
+    3 (diff, move detection) supplied. -/
 def update (segs : List Seg) (subst : List (Nat × Nat)) (moves : List Move)
     (old : List Attr) (author : Str) (ts : Nat) : Except Err (List Attr) :=
   match transform segs subst moves (normalizeOld old) author ts with
   | .error e => .error e
   | .ok out => .ok (merge out)
+
+/-! ## update_attributions on an unchanged content (`attributions_for_unchanged_content`) -/
+
+/-- key `(start, end)` of the stable `sort_by_key` (tuple order). -/
+def posLe (a b : Attr) : Bool :=
+  decide (a.start < b.start) || (a.start == b.start && decide (a.stop ≤ b.stop))
+
+/-- the `retain` predicate: a range that starts inside the content, or a deletion marker at a
+    position of the content (its end included); never an inverted range. -/
+def insideB (len : Nat) (a : Attr) : Bool :=
+  decide (a.start ≤ a.stop) && (decide (a.start < len) || decide (a.stop ≤ len))
+
+/-- `a.end = a.end.min(len)` -/
+def cutTo (len : Nat) (a : Attr) : Attr := { a with stop := min a.stop len }
+
+/-- `attributions_for_unchanged_content`: position order (ties keep their order), ranges outside
+    the content dropped, the others cut to it. No diff, no re-sort by author, no merge; deletion
+    markers stay. -/
+def keepInPlace (len : Nat) (attrs : List Attr) : List Attr :=
+  ((sortBy posLe attrs).filter (insideB len)).map (cutTo len)
+
+/-- **`update_attributions`**: byte-identical contents return the prior attributions in place;
+    otherwise the diff path (`segs`, `subst`, `moves` are the outputs of `compute_diffs` and the
+    move detector on `oldC`, `newC`; they are not computed when the contents are identical). -/
+def updateAttributions (oldC newC : Text) (segs : List Seg) (subst : List (Nat × Nat))
+    (moves : List Move) (old : List Attr) (author : Str) (ts : Nat) : Except Err (List Attr) :=
+  if oldC = newC then .ok (keepInPlace newC.length old)
+  else update segs subst moves old author ts
 
 /-! ## attribute_unattributed_ranges -/
 
